@@ -177,6 +177,9 @@ impl Property for C14 {
         }
         case.delivery = gen_delivery(rng, case.stream().len());
         case.delivery.whole = false;
+        if process {
+            case.set("fifo", i64::from(rng.chance(1, 2)));
+        }
         if !process && rng.chance(1, 6) {
             // the same world with a standard output that stops accepting bytes somewhere
             // inside the rows: the run must end (with an error), not keep reading
@@ -410,8 +413,28 @@ fn check_process(case: &Case, prefix: &[u8], endless: &Endless, d: usize, l1: &R
         ctx.harness_error = Some("cannot create output files".into());
         return None;
     };
+    // half of the scenarios feed the endless stream through a FIFO named as a file argument
+    // (a real file-system object read through jawk's real File + BufReader, no hook) instead
+    // of standard input
+    let fifo: Option<std::path::PathBuf> = if case.param("fifo") == 1 { Some(ctx.fresh_path("fifo")) } else { None };
+    if let Some(f) = &fifo {
+        let c = std::ffi::CString::new(f.to_string_lossy().as_bytes()).unwrap_or_default();
+        // SAFETY: plain mkfifo(3) with a valid NUL-terminated path
+        if unsafe { libc::mkfifo(c.as_ptr(), 0o600) } != 0 {
+            ctx.harness_error = Some(format!("mkfifo {} failed", f.display()));
+            return None;
+        }
+    }
     let mut cmd = std::process::Command::new(&bin);
-    cmd.args(case.argv()).stdin(std::process::Stdio::piped()).stdout(of).stderr(ef);
+    cmd.args(case.argv()).stdout(of).stderr(ef);
+    match &fifo {
+        Some(f) => {
+            cmd.arg("--").arg(f).stdin(std::process::Stdio::null());
+        }
+        None => {
+            cmd.stdin(std::process::Stdio::piped());
+        }
+    }
     let spawned = {
         let _shared = super::c20::SPAWN_LOCK.read().unwrap_or_else(std::sync::PoisonError::into_inner);
         cmd.spawn()
@@ -423,13 +446,46 @@ fn check_process(case: &Case, prefix: &[u8], endless: &Endless, d: usize, l1: &R
             return None;
         }
     };
-    let mut pipe = child.stdin.take().unwrap();
+    let child_pipe = child.stdin.take();
     let head = prefix.to_vec();
     let en = endless.clone();
+    let done = std::sync::Arc::new(std::sync::atomic::AtomicBool::new(false));
+    let done2 = done.clone();
+    let fifo2 = fifo.clone();
     let producer = std::thread::spawn(move || {
+        use std::sync::atomic::Ordering;
         let mut written = 0usize;
         let mut k = 0u64;
         let mut buf = head;
+        let mut pipe: Box<dyn Write> = match (child_pipe, fifo2) {
+            (Some(p), _) => Box::new(p),
+            (None, Some(path)) => {
+                // a FIFO can be opened for writing only once a reader has it open: poll
+                // without blocking until jawk opens it, the child is gone, or 20 s passed
+                use std::os::unix::fs::OpenOptionsExt;
+                use std::os::fd::AsRawFd;
+                let start = std::time::Instant::now();
+                let f = loop {
+                    match std::fs::OpenOptions::new().write(true).custom_flags(libc::O_NONBLOCK).open(&path) {
+                        Ok(f) => break Some(f),
+                        Err(_) => {
+                            if done2.load(Ordering::SeqCst) || start.elapsed().as_secs() > 20 {
+                                break None;
+                            }
+                            std::thread::sleep(std::time::Duration::from_millis(1));
+                        }
+                    }
+                };
+                let Some(f) = f else { return 0 };
+                // SAFETY: fcntl on a descriptor we own; switches it back to blocking writes
+                unsafe {
+                    let fl = libc::fcntl(f.as_raw_fd(), libc::F_GETFL);
+                    libc::fcntl(f.as_raw_fd(), libc::F_SETFL, fl & !libc::O_NONBLOCK);
+                }
+                Box::new(f)
+            }
+            (None, None) => return 0,
+        };
         loop {
             while buf.len() < 4096 {
                 buf.extend_from_slice(&en.record(k));
@@ -449,13 +505,21 @@ fn check_process(case: &Case, prefix: &[u8], endless: &Endless, d: usize, l1: &R
         written
     });
     let st = crate::driver::wait_limited(&mut child, std::time::Duration::from_secs(30));
+    done.store(true, std::sync::atomic::Ordering::SeqCst);
+    if let Some(f) = &fifo {
+        // release a producer that is blocked in write() on a FIFO nobody reads any more
+        let _ = std::fs::OpenOptions::new().read(true).custom_flags_nonblock().open(f);
+    }
     let written = producer.join().unwrap_or(0);
+    if let Some(f) = &fifo {
+        let _ = std::fs::remove_file(f);
+    }
     let out = std::fs::read(&outp).unwrap_or_default();
     let err = std::fs::read(&errp).unwrap_or_default();
     let _ = std::fs::remove_file(&outp);
     let _ = std::fs::remove_file(&errp);
     ctx.stats.runs += 1;
-    ctx.stats.fault("endless-input.process-pipe", 1);
+    ctx.stats.fault(if fifo.is_some() { "endless-input.process-fifo" } else { "endless-input.process-pipe" }, 1);
     ctx.stats.probe(match written.saturating_sub(d) {
         0..=8192 => "process: producer got <= 8 KiB ahead of the last row's byte",
         8193..=73728 => "process: producer got 8..72 KiB ahead (stdin buffer + pipe capacity)",
@@ -486,6 +550,11 @@ fn check_process(case: &Case, prefix: &[u8], endless: &Endless, d: usize, l1: &R
     } else if st.code() == Some(0) {
         return viol("C14.terminates", "the executable exited with 0 where in-process go fails".to_string());
     }
+    // diagnostics on stdout name the file they come from
+    let out = match &fifo {
+        Some(f) => strip_paths(&out, &[f.to_string_lossy().to_string()]),
+        None => out,
+    };
     if out != l1.obs.stdout {
         return viol(
             "C14.rows",
@@ -769,4 +838,15 @@ fn check_dir(case: &Case, ctx: &mut Ctx) -> Option<Violation> {
     })();
     let _ = std::fs::remove_dir_all(&dir);
     res
+}
+
+trait NonBlockOpen {
+    fn custom_flags_nonblock(&mut self) -> &mut Self;
+}
+
+impl NonBlockOpen for std::fs::OpenOptions {
+    fn custom_flags_nonblock(&mut self) -> &mut Self {
+        use std::os::unix::fs::OpenOptionsExt;
+        self.custom_flags(libc::O_NONBLOCK)
+    }
 }
